@@ -65,6 +65,18 @@ func VpHMerge() {
 	pre := vpParam("merge.pre", 0)
 	maxTotal := vpParam("merge.total", 6) // bound on the number of entries over all inputs
 
+	if vpParam("merge.forkcmp", 0) == 0 {
+		// y.CompareKeys forks three ways per call on symbolic keys (user-key part, then the
+		// timestamp part); the merge iterator calls it once per comparison, so the path count
+		// grows as 3^comparisons. Its result is replaced here by the same value computed without
+		// branching (one ite term). The real CompareKeys is decided on its own by y.VpHKeys
+		// (C20); merge.forkcmp=1 runs the real one here as a cross-check (thorough tier).
+		vpStub("badger/y.CompareKeys", func(a, b []byte) int {
+			c1 := bytes.Compare(a[:len(a)-8], b[:len(b)-8])
+			c2 := bytes.Compare(a[len(a)-8:], b[len(b)-8:])
+			return vpIteInt(c1 != 0, c1, c2)
+		})
+	}
 	n := 2 + vpChoose("iters", maxIters-1)
 	reverse := vpChoose("reverse", 2) == 1
 
@@ -101,7 +113,19 @@ func VpHMerge() {
 
 	// optional disturbance before the checked positioning call (stale curKey / small)
 	if pre > 0 {
-		switch vpChoose("pre", 4) {
+		switch vpChoose("pre", 5) {
+		case 4:
+			// a reused iterator that was drained to the end first (every node exhausted,
+			// curKey/small stale), after Rewind (4) or after a Seek (5)
+			if vpChoose("pre.drain.seek", 2) == 1 {
+				mi.Seek(y.KeyWithTs(vpBytes("pu", 1), vpU64("pts")))
+			} else {
+				mi.Rewind()
+			}
+			for n := 0; mi.Valid() && n <= maxTotal; n++ {
+				mi.Next()
+			}
+			vpCover("merge.pre-drained")
 		case 0:
 		case 1:
 			mi.Rewind()
